@@ -10758,6 +10758,40 @@ let holds_C16_return_text pre f post =
         | _ -> true)
   else true
 
+(** val switches : dec_mode -> bool **)
+
+let switches = function
+| AltScreenBuffer -> true
+| SaveCursorAltScreenBuffer -> true
+| _ -> false
+
+(** val holds_C16_return_list : vt -> func -> vt -> bool **)
+
+let holds_C16_return_list pre f post =
+  let t = pre.vterm in
+  let t' = post.vterm in
+  if (&&) (is_alt_b t) (negb (is_alt_b t'))
+  then (match f with
+        | Decrst ms ->
+          (match ms with
+           | [] -> true
+           | m :: rest ->
+             if forallb (fun x -> negb (switches x)) rest
+             then let l = logical_t t.other.lines in
+                  let l' = logical_t t'.buf.lines in
+                  (match m with
+                   | AltScreenBuffer ->
+                     let (k, o) = curs t.other t.cur_col t.cur_row in
+                     text_upto l l' k o
+                   | SaveCursorAltScreenBuffer ->
+                     let c = saved_of t Primary in
+                     let (k, o) = curs t.other c.sc_col c.sc_row in
+                     text_upto l l' k o
+                   | _ -> true)
+             else true)
+        | _ -> true)
+  else true
+
 (** val kf1_restorable : term -> bool **)
 
 let kf1_restorable t =
